@@ -2,5 +2,5 @@ CONSTANTS
   Plan <- PlanA
   MaxServers = 2
 SPECIFICATION Spec
-INVARIANTS AliveBound AtMostOnce Complete DistinctAddrs
+INVARIANTS AliveBound AtMostOnce Complete DistinctAddrs NoneLeftRunning
 PROPERTIES Terminates
